@@ -44,7 +44,8 @@ S = Suite(
           "length <= 2 over {1,2,4,8}; fresh-interpreter runs at every thread setting; 27 "
           "one-argument variants (halo, domain, wind, z, background, measurement point, level, level order, "
           "modes, ONE profile component u/v/Kx/Ky/Kz scaled, source values, analytic flag, footprint flag, "
-          "precision) of a dispersion and a footprint solve, run before and after their base solve",
+          "precision) of a dispersion and a footprint solve, run before and after their base solve; two solves on the "
+          "same array objects with the source / u / v array edited in place in between",
     rule="array_equal for equal (solve, threads) inside one process; 1e-12 of the field "
          "maximum against the fresh interpreter and across thread settings; 1e-5 of the "
          "field maximum single vs double",
@@ -104,6 +105,8 @@ for _b in ("A-disp-d", "A-fp-s"):
         _MODS["%s/%s" % (_b, _k)] = {"scale": (_i, _f)}
 _SOLVES["A-disp-d/src"] = _SOLVES["A-disp-d"]
 _MODS["A-disp-d/src"] = {"srcseed": 977}
+_SOLVES["A-disp-d/src3"] = _SOLVES["A-disp-d"]
+_MODS["A-disp-d/src3"] = {"srcscale": -3.0}
 _SOLVES["A-disp-d/analytic"] = _SOLVES["A-disp-d"]
 _MODS["A-disp-d/analytic"] = {"analytic": True}
 _SOLVES["A-disp-d/footprint"] = ("A", True, "double", (16, 16), 6, (0.0, 0.0), None, 0.0)
@@ -129,6 +132,8 @@ def build(name):
         levels = np.array([int(t) for t in levels[3:].split(",")])
     elif isinstance(levels, list):
         levels = list(levels)
+    if "srcscale" in mod:
+        q0 = q0 * mod["srcscale"]
     if "scale" in mod:
         i, f = mod["scale"]
         prof = tuple((np.array(a, copy=True) * f if k == i else a) for k, a in enumerate(prof))
@@ -327,6 +332,37 @@ def history(seq):
                    nontrivial=_nontrivial(last))
 
 
+# in-place edits of the caller's arrays between two calls: (variant whose fresh-interpreter result is the reference, edit)
+INPLACE = {"src": ("A-disp-d/src3", lambda kw: kw["srf_flx"].__imul__(-3.0)),
+           "u": ("A-disp-d/u", lambda kw: kw["profiles"][0].__imul__(1.25)),
+           "v": ("A-disp-d/v", lambda kw: kw["profiles"][1].__imul__(-0.5))}
+
+
+@S.kind("history-inplace")
+def history_inplace(what):
+    """The SAME array objects are handed to two consecutive solves, one of them modified in place in between (a caller
+    that scales its flux map or updates a profile array): the second result must be the fresh-interpreter result for the
+    modified values (state keyed by object identity shows only here)."""
+    import bldfm.config as cfg
+    from bldfm.solver import steady_state_transport_solver
+    variant, edit = INPLACE[what]
+    _normalise()
+    try:
+        cfg.NUM_THREADS = 1
+        kw = build("A-disp-d")
+        steady_state_transport_solver(**kw)
+        edit(kw)
+        grid, conc, flx = steady_state_transport_solver(**kw)
+    finally:
+        _normalise()
+    last = dict(X=np.asarray(grid[0]), Y=np.asarray(grid[1]), Z=np.asarray(grid[2]), conc=np.asarray(conc), flx=np.asarray(flx))
+    e = _maxrel(last, fresh(variant, 1))
+    if not e <= TOL_ROUND:
+        return Verdict(False, "second solve on the same array objects after an in-place edit of %s: rel. diff %.3g to the fresh "
+                       "interpreter on the edited values (> %g)" % (what, e, TOL_ROUND), key="history-changes-result")
+    return Verdict(True, "in-place %s: rel %.2g to fresh" % (what, e), nontrivial=_nontrivial(last))
+
+
 @S.kind("fresh-threads")
 def fresh_threads(solve, threads):
     """The same solve in two fresh interpreters, one thread against `threads` threads."""
@@ -372,6 +408,8 @@ def generate(tier, rng):
             for v in variants:
                 yield "history", dict(seq=[[v, 1, False], [base, 1, False]])
                 yield "history", dict(seq=[[base, 1, False], [v, 1, False]])
+        for what in INPLACE:
+            yield "history-inplace", dict(what=what)
         return
     thorough = tier == "thorough"
     threads = _available([1, 2, 4, 8] if thorough else [1, 4])
@@ -385,6 +423,8 @@ def generate(tier, rng):
         for t in threads:
             if t != 1:
                 yield "fresh-threads", dict(solve=s, threads=t)
+    for what in INPLACE:
+        yield "history-inplace", dict(what=what)
     # near-twin pairs, both orders; the later solve on 1 thread and on several
     for base, variants in VARIANTS.items():
         for v in variants:
